@@ -167,10 +167,6 @@ func genSeq(r *vh.Rng, format string, o vh.Opts) []posn {
 			p.t = randTopType(r, format, needSD)
 			p.v = vh.RandValue(r, p.t, vo)
 		}
-		if format == "json" && vh.JsonNegIntLiteralOutOfRange(p.v) {
-			i-- // F15-1 (C15): such a float is written as an integer literal Decode(&interface{}) rejects
-			continue
-		}
 		seq = append(seq, p)
 	}
 	return seq
@@ -180,7 +176,18 @@ func isEOF(err error) bool {
 	return err != nil && (errors.Is(err, io.EOF) || errors.Is(err, io.ErrUnexpectedEOF) || strings.Contains(err.Error(), "EOF"))
 }
 
-// standalone encoding of one value with a fresh Encoder
+// standalone encoding of one value with a fresh Encoder.  Pointers are followed first: inside a container a
+// *T is written as its T, whereas a top-level Encode(&x) of a pointer to a nil []byte under
+// NilCollectionToZeroLength writes an empty ARRAY (encodeValue's nil-slice branch) where every other path writes
+// an empty byte string - the expected bytes of a FIELD must not be computed through that top-level branch.
+func encodeField(h codec.Handle, v reflect.Value) ([]byte, error) {
+	for v.Kind() == reflect.Ptr && !v.IsNil() {
+		v = v.Elem()
+	}
+	return encodeOne(h, v)
+}
+
+// standalone encoding exactly as a top-level Encode call sees the value
 func encodeOne(h codec.Handle, v reflect.Value) ([]byte, error) {
 	var out []byte
 	err := codec.NewEncoderBytes(&out, h).Encode(v.Interface())
@@ -188,6 +195,13 @@ func encodeOne(h codec.Handle, v reflect.Value) ([]byte, error) {
 }
 
 // what Decode(&interface{}) gives for the value's own encoding, standalone
+func nakedOfField(h codec.Handle, v reflect.Value) (string, error) {
+	for v.Kind() == reflect.Ptr && !v.IsNil() {
+		v = v.Elem()
+	}
+	return nakedOf(h, v)
+}
+
 func nakedOf(h codec.Handle, v reflect.Value) (string, error) {
 	b, err := encodeOne(h, v)
 	if err != nil {
@@ -260,7 +274,7 @@ func (c *seqCtx) checkRawField(name string, t reflect.Type, src reflect.Value, r
 		return
 	}
 	if c.bytesComparable(t, true) {
-		want, err := encodeOne(c.h, src)
+		want, err := encodeField(c.h, src)
 		if c.format == "json" {
 			want = bytes.TrimRight(want, " \n") // the delimiter TermWhitespace adds to a top-level value
 		}
@@ -300,7 +314,7 @@ func (c *seqCtx) checkWrap(p posn, dst reflect.Value, i int) {
 				c.fail("wrap:typed-field:"+d, "a struct field decoded next to skipped / captured fields differs from the value encoded", ex)
 			}
 		case "naked":
-			want, err := nakedOf(c.h, src)
+			want, err := nakedOfField(c.h, src)
 			got := vh.CanonRV(dst.FieldByName(f.Name))
 			if err == nil && "i:"+want != got && !(want == "nil" && got == "niliface") {
 				ex["want"], ex["got"] = want, got
